@@ -63,6 +63,12 @@ def world(decisions, module):
     return run
 
 
+def reset_globals(module, p):
+    """The module-level variables start every run with their own tokens (or unbound if the run before deleted them)."""
+    for k, v in mp.global_tokens(p).items():
+        setattr(module, k, v)
+
+
 class RunTimeout(BaseException):
     """A converted function (or a conversion) that does not come back: reported, never waited for."""
 
@@ -78,6 +84,7 @@ CONVERT_SECONDS = 60.0
 def observe(module, fn, p, decisions, recorder=None, inp=None):
     import signal
     run = world(decisions, module)
+    reset_globals(module, p)
     if recorder is not None:
         recorder.run = run
     signal.signal(signal.SIGALRM, _on_alarm)
@@ -89,7 +96,7 @@ def observe(module, fn, p, decisions, recorder=None, inp=None):
             signal.setitimer(signal.ITIMER_REAL, 0)
     except RunTimeout:
         out = ['timeout', 'no result after %g s' % RUN_SECONDS]
-    return dict(log=run.log, out=out, used=run.di)
+    return dict(log=run.log, out=out, used=run.di, gl=mp.globals_now(p, module))
 
 
 def embeds(expected, observed):
@@ -124,6 +131,8 @@ def agree(rec, res):
             return 'effects'
         if res['used'] != len(rec['dec']):
             return 'decisions'
+        if res.get('gl', []) != rec.get('gl', []):
+            return 'globals'      # what the module-level variables hold when the function has returned
         return None
     # an exception escapes: its type, and the effects up to the raise.  When a finally block ran while the exception was
     # propagating, what that block does is outside the guarantee - in the converted function it may raise an exception of
